@@ -54,10 +54,10 @@ PROPS = {
         modules=["Copia.Props.C06"], namespaces=["Copia.C06"], runner="bb", bb_module="bb_bisync",
         assumptions=_BI_ASSUME, trusted_base=_BI_TB,
         level_text="Kernel-checked WHOLE-RUN theorems for the model of `copia bisync`, for every pair of trees and every archive, under NoNameClash: `converges` (the run completes; afterwards A and B hold the same content at every path and the archive written records exactly that tree) "
-                   "and `second_run_noop` (the next run plans nothing, reports no conflict and leaves both trees as they are), `conflict_outcome` (a divergent edit ends on both sides as the greater-hash version at the path and the other at the conflict-copy name). For all maps: a converged pair with a matching record plans nothing; swapping the roots mirrors every decision. "
+                   "and `second_run_noop` (the next run plans nothing, reports no conflict and leaves both trees as they are), `conflict_outcome` (a divergent edit ends on both sides as the greater-hash version at the path and the other at the conflict-copy name), `swap_run` (naming the roots the other way round leaves the same bytes at every path on both sides, for a total antisymmetric hash order). For all maps: a converged pair with a matching record plans nothing; swapping the roots mirrors every decision. "
                    "Without NoNameClash the statements are false of model and code (D10, known findings). Conflict outcome = max BLAKE3 at the path and the loser at <path>.conflict-<host>-<12 hex> is part of the model and "
                    "compared with every real run; oracles: convergence, archive = tree, an immediate real second run plans 0 actions, same final trees under scrambled mtimes and swapped roots.",
-        level_note="Trusts Lean's kernel, the hand-written model of bidir.rs (validated against the binary on every run), the harness and the sandbox. mtime independence and root-swap of whole runs are oracle-checked on the binary (the model has no mtimes; `swap_plan` covers the decisions).",
+        level_note="Trusts Lean's kernel, the hand-written model of bidir.rs (validated against the binary on every run), the harness and the sandbox. mtime independence is by construction in the model (it has no mtimes) and oracle-checked on the binary; root swap is `swap_run` + the oracle.",
         technique="Lean 4 proof (run + archive invariants by induction over the plan) + executable-model correspondence on histories + convergence/idempotence/independence oracles",
     ),
     "C07": dict(
@@ -74,7 +74,7 @@ PROPS = {
         modules=["Copia.Props.C04"], namespaces=["Copia.C04"], runner="bb", bb_module="bb_oneway",
         assumptions=_OW_ASSUME, trusted_base=_OW_TB + ["bash's ANSI-C quoting ($'…') as modelled by Quote.ansiC: named escapes decoded, unknown escapes kept, numeric/control escapes outside the model (never produced by the escaping chain — proved); cross-checked against the installed bash on every run"],
         level_text="Kernel-checked theorems for ALL trees/flags over the run model: destination after a run = (deleted if in delete; source entry with the source's whole-second mtime if in transfer; untouched otherwise), "
-                   "nothing outside the plan is touched, an empty source without --delete is a no-op, and ORDER INDEPENDENCE: any completion order of the parallel transfers/deletes gives the same destination. "
+                   "nothing outside the plan is touched — also when ANY subset of the transfers and deletes fails (`partial_failure_stays_in_plan`: the non-zero-exit clause) —, an empty source without --delete is a no-op, and ORDER INDEPENDENCE: any completion order of the parallel transfers/deletes gives the same destination. "
                    "With C19's theorems the plan itself is the set definition. QUOTING: `quoted_path_decodes` / `quoted_staging_decodes` — for EVERY remote path string (quotes, backslashes, newlines, $, ;, backticks) bash's ANSI-C scanner decodes the `$'…'` word the sources build "
                    "(escaping chain regenerated from the four source files, which must agree) back to exactly the path and stops at the closing quote; the model scanner and `escape` are cross-checked against the installed bash. Tie: real `copia sync -r` in all three directions (SSH stand-in) on trees with hostile names, every per-file destination state, flag sets incl. --jobs; "
                    "predicted destination (bytes, whole-second mtime, untouched sub-second parts) and printed plan compared; oracles: source unchanged, no staging file left.",
